@@ -370,7 +370,13 @@ func b2i(b bool) int {
 
 func c14RunEnc(t *testing.T, ops []string, o *Out) {
 	var enc *flexfec.FlexEncoder03
+	// the repair packets EncodeFec returned are the caller's (it may pace them out after encoding later batches): every
+	// packet is kept as the element of the returned slice — header and payload by reference — and re-rendered after
+	// every later op (retain_test.go)
+	defer o.EndKept()
+	nBatch := 0
 	for _, op := range ops {
+		o.CheckKept()
 		name, m := kv(op)
 		switch name {
 		case "new":
@@ -404,6 +410,11 @@ func c14RunEnc(t *testing.T, ops []string, o *Out) {
 			for _, fp := range fecs {
 				o.P("fec ssrc=%d pt=%d seq=%d ts=%d m=%d x=%d p=%d cc=%d payload=%s", fp.SSRC, fp.PayloadType,
 					fp.SequenceNumber, fp.Timestamp, b2i(fp.Marker), b2i(fp.Extension), b2i(fp.Padding), len(fp.CSRC), hexs(fp.Payload))
+			}
+			nBatch++
+			for i := range fecs {
+				fp := &fecs[i]
+				o.keepCost(fmt.Sprintf("batch#%d/fec%d", nBatch, i), len(fp.Payload), func() string { return renderRTPKept(&fp.Header, fp.Payload) })
 			}
 		default:
 			o.P("bad-op")
@@ -671,6 +682,8 @@ func c14RunInt(t *testing.T, ops []string, o *Out) {
 	shared := &rtp.Packet{}   // the caller's single packet object (reuse=1)
 	var failAt map[int]bool // calls of the bottom writer that fail during the current Write
 	call := 0
+	nRepair := 0
+	defer o.EndKept()
 	bottom := interceptor.RTPWriterFunc(func(h *rtp.Header, p []byte, _ interceptor.Attributes) (int, error) {
 		idx := call
 		call++
@@ -695,6 +708,10 @@ func c14RunInt(t *testing.T, ops []string, o *Out) {
 			onWire[h.SequenceNumber] = append([]byte(nil), buf[:k]...)
 		case h.SSRC == fecSSRC && h.PayloadType == fecPT:
 			wireCheck(h.SequenceNumber, append([]byte(nil), p...))
+			// a repair packet is made by the interceptor, for this one Write: what reached the writer stays what it was
+			// while later media packets are protected (retain_test.go)
+			nRepair++
+			o.KeepRTP(fmt.Sprintf("repair#%d/seq%d", nRepair, h.SequenceNumber), h, p)
 		}
 		if failAt[idx] {
 			return 0, &c14InjectedError{idx}
@@ -702,11 +719,13 @@ func c14RunInt(t *testing.T, ops []string, o *Out) {
 		return len(p), nil
 	})
 	defer func() {
+		o.CheckKeptAll()
 		if icpt != nil {
 			_ = icpt.Close()
 		}
 	}()
 	for _, op := range ops {
+		o.CheckKept()
 		name, m := kv(op)
 		switch name {
 		case "new":
